@@ -13,7 +13,10 @@ from checks._exec import sample
 
 def graphs(tier, rng, rep, per_family=None):
     q = tier == "quick"
+    import families
     specs = [(sp, False) for sp in C06.corpus(tier, rng)[::(5 if q else 2)]]
+    # deterministic core: occupancy stacks whose levels name different leaders (a leader's fiber must be bound before each follower's split)
+    specs += [(sp, False) for sp in families.occ_core()]
     specs += [(sp, True) for sp in C11.hw_specs(tier, rng)[::(2 if q else 1)]]
     recs, src = [], []
     for sp, hw in specs:
@@ -67,15 +70,24 @@ def run(tier, rep):
             if id(sp) not in seen:
                 seen.add(id(sp))
                 specs.append((sp, hw))
-        for sp, hw in specs[:: (2 if q else 1)]:
-            for k in range(3 if q else 8):
-                os.environ["TEAAL_VERIF_TOPO_SEED"] = str(100 + k)
+        for sp, hw in [x for i, x in enumerate(specs) if not q or i % 2 == 0 or x[0]["family"].startswith("occ")]:
+            texts, fails = [], []
+            for k in [None] + list(range(3 if q else 8)):                 # None: the implementation's own order
+                if k is not None:
+                    os.environ["TEAAL_VERIF_TOPO_SEED"] = str(100 + k)
                 try:
-                    text = execpipe.compile_text(sp["yaml"], hw=hw)
-                except Exception:
-                    continue
+                    texts.append(execpipe.compile_text(sp["yaml"], hw=hw))
+                except Exception as ex:
+                    fails.append((k, ex))
                 finally:
                     os.environ.pop("TEAAL_VERIF_TOPO_SEED", None)
+            if texts and fails:
+                # the specification compiles under one admissible order and not under another: the graph admits an order the translator cannot follow
+                k, ex = fails[0]
+                rep.violation(dict(kind="hoist", clause="Err: an admissible statement order makes the translator fail (%s: %s): a real dependence is not an edge of the flow graph"
+                                   % (type(ex).__name__, str(ex)[:80]), spec=sp["yaml"], text="", family=sp["family"],
+                                   topo_seed=("implementation's own order under this hash seed" if k is None else 100 + k), orders_failing=len(fails), orders_compiling=len(texts)))
+            for text in texts:
                 progs.append({"id": len(progs), "yaml": sp["yaml"], "text": text, "family": sp["family"], "mode": "metrics" if hw else "plain"})
         os.environ.pop(common.GUARD, None)
         distinct = {}
